@@ -81,9 +81,9 @@ def run(ctx):
     ]
     # as specified: holds for every renumbering
     _, insts = bp.io_run(ctx, "c38_a", NS=3, NI=2, G=2, vals=(0, 1, 2), ign=("spec",), perms="all", mode="hash",
-                         seeds=range(1, 30 if q else 200), canon=False, min_kids=1, emit=True)
+                         seeds=range(1, 30 if q else 500), canon=False, min_kids=1, emit=True)
     _, more = bp.io_run(ctx, "c38_b", NS=4, NI=3, G=3, vals=(0, 1, 2), ign=("spec",), perms="all", mode="hash",
-                        seeds=range(1, 3 if q else 40), canon=True, min_kids=1, emit=True)
+                        seeds=range(1, 3 if q else 100), canon=True, min_kids=1, emit=True)
     insts += more
     # as implemented: named deviation, TLC must refute it
     r, _ = bp.io_run(ctx, "c38_impl", NS=3, NI=2, G=2, vals=(0, 1, 2), ign=("impl",), perms="all", mode="hash",
@@ -94,6 +94,10 @@ def run(ctx):
     ctx.count("deviation_impl_refuted_by_TLC")
     _, dags = bp.order_run(ctx, "c38_o", NS=2, NI=3, max_edges=5 if q else 6, tmax=3, emit=True,
                            invariants=["OldestRootIsOldestParent"])
+    if not q:
+        _, more = bp.order_run(ctx, "c38_o3", NS=3, NI=3, max_edges=5, tmax=3, emit=True,
+                               invariants=["OldestRootIsOldestParent"])
+        dags += more
     r, _ = bp.order_run(ctx, "c38_oi", NS=2, NI=3, max_edges=5, tmax=3, invariants=["ImplIgnoresOldestRoot"],
                         must_hold=False)
     if r.violated != "ImplIgnoresOldestRoot":
@@ -104,7 +108,7 @@ def run(ctx):
     bp.tsd()
     bp.tick(ctx, "import_tsdate")
     proper = [i for i in insts if i["status"] == "done"]
-    cap = 1000 if q else 8000
+    cap = 1000 if q else 20000
     if len(proper) > cap:
         proper = ctx.rng.sample(proper, cap)
     for inst in proper:
@@ -112,7 +116,7 @@ def run(ctx):
         replay_double(ctx, inst)
     bp.tick(ctx, "replay_doubles")
     dags = [d for d in dags if d["unique"]]
-    cap = 1000 if q else 8000
+    cap = 1000 if q else 20000
     ctx.exhaustive = False
     if len(dags) > cap:
         dags = ctx.rng.sample(dags, cap)
@@ -122,7 +126,7 @@ def run(ctx):
         if d["perm"][d["oldest"]] != d["N"] - 1 and d["skipped"]:
             ctx.nontriv(("dag", str(d["edges"]), str(d["perm"]), str(d["time"])))
     bp.tick(ctx, "replay_orders")
-    inputs = bp.corpus(ctx, 4 if q else 30, 1 if q else 6)
+    inputs = bp.corpus(ctx, 4 if q else 40, 1 if q else 8) + (bp.sparse_corpus(ctx, 40) if not q else [])
     for k, inp in enumerate(inputs):
         for s in range(1 if q else 3):
             pair(ctx, inp.name, inp.ts, inp.mu, inp.Ne, bp.SPACES[(k + s) % 2], ctx.seed + 101 * s + k)
